@@ -297,6 +297,8 @@ impl DevKnobs {
             clock_offset: self.clock_offset,
             link_delay: self.link_delay,
             parent,
+            dl_links_override: None,
+            port_times_override: None,
         }
     }
 }
